@@ -380,6 +380,8 @@ func genC19(r *Rng) *Plan {
 	if cfg.Provider == "google" {
 		cfg.Slug = "google"
 	}
+	// token alphabets: what the identity provider hands out is an opaque string, not necessarily URL-safe
+	cfg.TokenChars = r.Pick("", "", "", "+/", "==", "&token=x", "+", "%2B")
 	cfg.Routes = []Route{routeFor(1, nil)}
 	manyHosts := r.Chance(1, 4)
 	if manyHosts {
